@@ -65,6 +65,18 @@ def trialKnown (ss : List PC) (t : Assign) : Bool :=
 def allIntegral (fv : List PVal) : Bool :=
   fv.all fun v => match ratOf v with | some q => isIntegralQ q | none => false
 
+
+/-- the declared external type makes sense for the parameter (what the builders produce:
+BOOLEAN only on a True/False categorical, INTEGER only on integer-valued numerics, FLOAT
+only on numerics); `factory` itself accepts any combination -/
+def extOK (h : Hdr) : Bool :=
+  match h.ext with
+  | .internal => true
+  | .boolean => h.type == .categorical &&
+      h.feasible.all fun f => decide (f = .str "True") || decide (f = .str "False")
+  | .integer => (h.type == .discrete && allIntegral h.feasible) || h.type == .integer
+  | .float => h.type.isNumeric
+
 /-- names of the active parameters carried by the trial are pairwise distinct -/
 def activeNamesUnique (ss : List PC) (t : Assign) : Bool :=
   let ns := (activePresent ss t).map (·.1.name)
